@@ -18,6 +18,18 @@ impl<A: WindowAccumulator> EventTimeWindowManager<A> {
     fn alloc_windows(&mut self, ts: Timestamp) {
         assert!(self.last_watermark.map(|w| ts >= w).unwrap_or(true));
 
+        // An element older than the one that anchored the first window (and not late): allocate
+        // the windows before the first one until one contains `ts`.
+        while let Some(first) = self.ws.front().map(|f| f.start) {
+            if first <= ts {
+                break;
+            }
+            let start = first - self.slide;
+            log::trace!("New window {}..{}", start, start + self.size);
+            self.ws
+                .push_front(Slot::new(self.init.clone(), start, start + self.size));
+        }
+
         while self.ws.back().map(|b| b.start < ts).unwrap_or(true) {
             let mut next_start = self.ws.back().map(|b| b.start + self.slide).unwrap_or(ts);
             // Skip empty windows
